@@ -499,6 +499,13 @@ func c17NoAliasWrite(c *Ctx) {
 					if len(x.Call.Args) > 0 && al[x.Call.Args[0]] {
 						bad = append(bad, "in-place reordering of an alias of the position table at "+p.InstrPos(in)+" in "+shortName(fn))
 					}
+				} else if cal != nil {
+					// the library functions that compact, shift or overwrite their first argument in place
+					for _, m := range []string{"slices.DeleteFunc", "slices.Delete", "slices.CompactFunc", "slices.Compact", "slices.Insert", "slices.Replace"} {
+						if (cal.String() == m || strings.HasPrefix(cal.String(), m+"[")) && len(x.Call.Args) > 0 && al[x.Call.Args[0]] {
+							bad = append(bad, m+" rewrites an alias of the position table in place at "+p.InstrPos(in)+" in "+shortName(fn))
+						}
+					}
 				}
 			case *ssa.Store:
 				if ia, ok := x.Addr.(*ssa.IndexAddr); ok && al[ia.X] {
@@ -792,7 +799,9 @@ func c17IsRootDirect(p *Prog, fn *ssa.Function) bool {
 // the ranges that Parent/ChildrenOf induce (children of the positions of one level fill the next). Two loop shapes are
 // decided: (A) the level scan  for lvl := 1; lvl < height; lvl++ { if start <= pos < start+count { return height-lvl };
 // start += count; count *= bf }  and (B) the walk to the root  for i := pos; i > 0; i = (i-1)/bf { lvl++ }; return height-lvl
-// (the Parent formula of C17.2). Anything else is reported as not recognised (the rule does not evaluate loops).
+// (the Parent formula of C17.2). The loop may live in a private helper that receives height and branch factor as
+// arguments, and the result may be returned early or through a result variable. Anything else is reported as not
+// recognised (the rule does not evaluate loops).
 func c17HeightOf(c *Ctx) {
 	p := c.P
 	fn := p.Method("internal/tree", "Tree", "heightOf")
@@ -800,31 +809,45 @@ func c17HeightOf(c *Ctx) {
 		c.Unresolved("C17.8", "Tree.heightOf", "anchor missing")
 		return
 	}
+	nLevelRet := 0
+	reason := c17HeightShape(p, fn, map[*ssa.Parameter]string{}, &nLevelRet, 0)
+	if reason == "" && nLevelRet == 0 {
+		reason = "no result of the form height - level"
+	}
+	c.Check(reason == "", "C17.8", "heightOf: a replica's height is the tree height minus its level in the positional layout", p.FuncPos(fn),
+		"level ranges (start, count) := (1, bf) -> (start+count, count*bf), result height-lvl under start <= pos < start+count (or the walk i -> (i-1)/bf to the root): the ranges that Parent/ChildrenOf induce",
+		"heightOf is not the level scan nor the walk to the root over the layout of Parent/ChildrenOf: "+reason+" (a replica's height disagrees with its parent's height minus one)")
+}
+
+func c17HeightShape(p *Prog, fn *ssa.Function, roles map[*ssa.Parameter]string, nLevelRet *int, depth int) string {
+	if depth > 2 {
+		return "helper chain too deep"
+	}
 	isConst := func(v ssa.Value, n int64) bool {
 		cst, ok := v.(*ssa.Const)
 		return ok && cst.Value != nil && cst.Value.Kind() == constant.Int && cst.Int64() == n
 	}
-	fieldLoad := func(v ssa.Value, name string) bool {
-		u, ok := v.(*ssa.UnOp)
-		if !ok || u.Op != token.MUL {
-			return false
-		}
-		fa, ok := u.X.(*ssa.FieldAddr)
-		return ok && fieldVar(fa.X.Type(), fa.Field) != nil && fieldVar(fa.X.Type(), fa.Field).Name() == name
-	}
 	isField := func(v ssa.Value, name string) bool {
-		if fieldLoad(v, name) {
-			return true
+		if pa, ok := v.(*ssa.Parameter); ok {
+			return roles[pa] == name
 		}
-		f, ok := v.(*ssa.Field) // t.height read from a value copy of the receiver
+		if u, ok := v.(*ssa.UnOp); ok && u.Op == token.MUL {
+			fa, ok := u.X.(*ssa.FieldAddr)
+			return ok && fieldVar(fa.X.Type(), fa.Field) != nil && fieldVar(fa.X.Type(), fa.Field).Name() == name
+		}
+		f, ok := v.(*ssa.Field) // read from a value copy of the receiver
 		return ok && fieldVar(f.X.Type(), f.Field) != nil && fieldVar(f.X.Type(), f.Field).Name() == name
 	}
-	rp := p.Method("internal/tree", "Tree", "replicaPosition")
+	isHeight := func(v ssa.Value) bool { return isField(v, "height") }
+	isBF := func(v ssa.Value) bool { return isField(v, "branchFactor") }
+	// a position: any value that is not a loop variable, a constant, the height or the branch factor
 	isPos := func(v ssa.Value) bool {
-		call, ok := v.(*ssa.Call)
-		return ok && rp != nil && calleeIs(&call.Call, rp)
+		switch v.(type) {
+		case *ssa.Phi, *ssa.Const, *ssa.BinOp:
+			return false
+		}
+		return !isHeight(v) && !isBF(v)
 	}
-	// back-edge shape of a loop phi: init edge satisfies init, the other edge is  phi <op> operand
 	shape := func(ph *ssa.Phi, init func(ssa.Value) bool, op token.Token, operand func(ssa.Value) bool, commutative bool) bool {
 		if len(ph.Edges) != 2 {
 			return false
@@ -840,11 +863,11 @@ func c17HeightOf(c *Ctx) {
 		}
 		return false
 	}
-	// conditions that hold on entry to block b (walk up the dominator tree over single-predecessor branch targets)
 	type cond struct {
 		c   *ssa.BinOp
 		pol bool
 	}
+	// conditions that hold in block b (on entry, over single-predecessor branch targets up the dominator tree)
 	condsAt := func(b *ssa.BasicBlock) []cond {
 		var out []cond
 		for b != nil {
@@ -863,8 +886,8 @@ func c17HeightOf(c *Ctx) {
 		}
 		return out
 	}
-	// x < y holds by (op, operands, polarity)?
-	less := func(cd cond, x, y func(ssa.Value) bool, strict bool) bool {
+	// normalise to  x < y  (strict) or  x <= y
+	rel := func(cd cond) (strict bool, x, y ssa.Value, ok bool) {
 		op := cd.c.Op
 		if !cd.pol {
 			switch op {
@@ -877,55 +900,56 @@ func c17HeightOf(c *Ctx) {
 			case token.LEQ:
 				op = token.GTR
 			default:
-				return false
+				return false, nil, nil, false
 			}
 		}
-		if strict {
-			return op == token.LSS && x(cd.c.X) && y(cd.c.Y) || op == token.GTR && x(cd.c.Y) && y(cd.c.X)
+		switch op {
+		case token.LSS:
+			return true, cd.c.X, cd.c.Y, true
+		case token.LEQ:
+			return false, cd.c.X, cd.c.Y, true
+		case token.GTR:
+			return true, cd.c.Y, cd.c.X, true
+		case token.GEQ:
+			return false, cd.c.Y, cd.c.X, true
 		}
-		return op == token.LEQ && x(cd.c.X) && y(cd.c.Y) || op == token.GEQ && x(cd.c.Y) && y(cd.c.X)
+		return false, nil, nil, false
 	}
-	reason := func() string {
-		// the loop phis
-		var phis []*ssa.Phi
-		eachInstr(fn, func(in ssa.Instruction) {
-			if ph, ok := in.(*ssa.Phi); ok && len(ph.Edges) == 2 {
-				phis = append(phis, ph)
-			}
-		})
-		var lvl, start, count, walk *ssa.Phi
-		for _, ph := range phis {
-			switch {
-			case shape(ph, func(v ssa.Value) bool { return isConst(v, 1) || isConst(v, 0) }, token.ADD, func(v ssa.Value) bool { return isConst(v, 1) }, true):
-				lvl = ph
-			case shape(ph, func(v ssa.Value) bool { return isField(v, "branchFactor") }, token.MUL, func(v ssa.Value) bool { return isField(v, "branchFactor") }, true):
-				count = ph
-			}
+	// the loop variables
+	var phis []*ssa.Phi
+	eachInstr(fn, func(in ssa.Instruction) {
+		if ph, ok := in.(*ssa.Phi); ok && len(ph.Edges) == 2 {
+			phis = append(phis, ph)
 		}
-		for _, ph := range phis {
-			if ph == lvl || ph == count {
+	})
+	var lvl, start, count, walk *ssa.Phi
+	for _, ph := range phis {
+		switch {
+		case shape(ph, func(v ssa.Value) bool { return isConst(v, 1) || isConst(v, 0) }, token.ADD, func(v ssa.Value) bool { return isConst(v, 1) }, true):
+			lvl = ph
+		case shape(ph, isBF, token.MUL, isBF, true):
+			count = ph
+		}
+	}
+	for _, ph := range phis {
+		if ph == lvl || ph == count {
+			continue
+		}
+		if count != nil && shape(ph, func(v ssa.Value) bool { return isConst(v, 1) }, token.ADD, func(v ssa.Value) bool { return v == count }, true) {
+			start = ph
+		}
+		for i := 0; i < 2; i++ {
+			q, ok := ph.Edges[1-i].(*ssa.BinOp)
+			if !isPos(ph.Edges[i]) || !ok || q.Op != token.QUO || !isBF(q.Y) {
 				continue
 			}
-			if count != nil && shape(ph, func(v ssa.Value) bool { return isConst(v, 1) }, token.ADD, func(v ssa.Value) bool { return v == count }, true) {
-				start = ph
-			}
-			// i = (i-1)/bf starting from the position
-			if len(ph.Edges) == 2 {
-				for i := 0; i < 2; i++ {
-					q, ok := ph.Edges[1-i].(*ssa.BinOp)
-					if !isPos(ph.Edges[i]) || !ok || q.Op != token.QUO || !isField(q.Y, "branchFactor") {
-						continue
-					}
-					if m, ok := q.X.(*ssa.BinOp); ok && m.Op == token.SUB && m.X == ph && isConst(m.Y, 1) {
-						walk = ph
-					}
-				}
+			if m, ok := q.X.(*ssa.BinOp); ok && m.Op == token.SUB && m.X == ph && isConst(m.Y, 1) {
+				walk = ph
 			}
 		}
-		if lvl == nil {
-			return "no level counter (a loop variable incremented by 1 per level) found"
-		}
-		lvlInit := int64(-1)
+	}
+	lvlInit := int64(-1)
+	if lvl != nil {
 		for _, e := range lvl.Edges {
 			if isConst(e, 0) {
 				lvlInit = 0
@@ -933,101 +957,141 @@ func c17HeightOf(c *Ctx) {
 				lvlInit = 1
 			}
 		}
-		isLvl := func(v ssa.Value) bool { return v == lvl }
-		isHeight := func(v ssa.Value) bool { return isField(v, "height") }
-		// every return: t.height (root), 0 (not in the tree / below the last level), or height - lvl under the level's conditions
-		nLevelRet := 0
-		for _, r := range returnsOf(fn) {
-			if len(r.Results) != 1 {
-				return "unexpected result list"
+	}
+	// the results: every return value, through result variables (phis), with the block whose conditions apply
+	type leaf struct {
+		v ssa.Value
+		b *ssa.BasicBlock
+		r *ssa.Return
+	}
+	var leaves []leaf
+	var flatten func(v ssa.Value, b *ssa.BasicBlock, r *ssa.Return, seen map[ssa.Value]bool)
+	flatten = func(v ssa.Value, b *ssa.BasicBlock, r *ssa.Return, seen map[ssa.Value]bool) {
+		if ph, ok := v.(*ssa.Phi); ok && ph != lvl && ph != start && ph != count && ph != walk {
+			if seen[ph] {
+				return
 			}
-			v := r.Results[0]
-			if isConst(v, 0) {
-				continue
+			seen[ph] = true
+			for i, e := range ph.Edges {
+				flatten(e, ph.Block().Preds[i], r, seen)
 			}
-			if isHeight(v) {
-				rootOK := false
-				for b := r.Block(); b != nil; b = b.Idom() {
-					d := b.Idom()
-					if d == nil {
+			return
+		}
+		leaves = append(leaves, leaf{v, b, r})
+	}
+	for _, r := range returnsOf(fn) {
+		if len(r.Results) != 1 {
+			return "unexpected result list"
+		}
+		flatten(r.Results[0], r.Block(), r, map[ssa.Value]bool{})
+	}
+	for _, lf := range leaves {
+		v := lf.v
+		if isConst(v, 0) {
+			continue
+		}
+		if isHeight(v) {
+			rootOK := false
+			for b := lf.b; b != nil; b = b.Idom() {
+				d := b.Idom()
+				if d == nil {
+					break
+				}
+				if iff, ok := d.Instrs[len(d.Instrs)-1].(*ssa.If); ok && len(b.Preds) == 1 && d.Succs[0] == b {
+					if call, ok := iff.Cond.(*ssa.Call); ok && call.Call.StaticCallee() != nil && call.Call.StaticCallee().Name() == "IsRoot" {
+						rootOK = true
+					}
+					if bo, ok := iff.Cond.(*ssa.BinOp); ok && bo.Op == token.EQL && (isPos(bo.X) && isConst(bo.Y, 0) || isPos(bo.Y) && isConst(bo.X, 0)) {
+						rootOK = true
+					}
+				}
+			}
+			if !rootOK {
+				return "the full height is returned at " + p.InstrPos(lf.r) + " for a replica that is not known to be the root"
+			}
+			continue
+		}
+		if call, ok := v.(*ssa.Call); ok {
+			// the loop in a private helper of the package: height and branch factor arrive as arguments
+			if g := call.Call.StaticCallee(); g != nil && g.Blocks != nil && funcPkgPath(g) == funcPkgPath(fn) && g != fn {
+				sub := map[*ssa.Parameter]string{}
+				for i, a := range call.Call.Args {
+					if i >= len(g.Params) {
 						break
 					}
-					if iff, ok := d.Instrs[len(d.Instrs)-1].(*ssa.If); ok && len(b.Preds) == 1 && d.Succs[0] == b {
-						if call, ok := iff.Cond.(*ssa.Call); ok && call.Call.StaticCallee() != nil && call.Call.StaticCallee().Name() == "IsRoot" {
-							rootOK = true
-						}
-						if bo, ok := iff.Cond.(*ssa.BinOp); ok && bo.Op == token.EQL && (isPos(bo.X) && isConst(bo.Y, 0) || isPos(bo.Y) && isConst(bo.X, 0)) {
-							rootOK = true
-						}
+					switch {
+					case isHeight(a):
+						sub[g.Params[i]] = "height"
+					case isBF(a):
+						sub[g.Params[i]] = "branchFactor"
 					}
 				}
-				if !rootOK {
-					return "the full height is returned at " + p.InstrPos(r) + " for a replica that is not known to be the root"
+				if why := c17HeightShape(p, g, sub, nLevelRet, depth+1); why != "" {
+					return why
 				}
 				continue
 			}
-			bo, ok := v.(*ssa.BinOp)
-			if !ok || bo.Op != token.SUB || !isHeight(bo.X) || !isLvl(bo.Y) {
-				return "the result at " + p.InstrPos(r) + " is not height - level"
+		}
+		bo, ok := v.(*ssa.BinOp)
+		if !ok || bo.Op != token.SUB || !isHeight(bo.X) || lvl == nil || bo.Y != lvl {
+			if lvl == nil {
+				return "no level counter (a loop variable incremented by 1 per level) found"
 			}
-			nLevelRet++
-			if walk != nil && start == nil {
-				// shape B: returned after the loop  for i > 0  ends, level counter from 0
-				if lvlInit != 0 {
-					return "the walk to the root counts levels from " + itoa(int(lvlInit)) + ", not 0"
-				}
-				hdr := walk.Block()
-				iff, ok := hdr.Instrs[len(hdr.Instrs)-1].(*ssa.If)
-				if !ok || lvl.Block() != hdr {
-					return "the walk's loop header is not recognised"
-				}
-				cb, ok := iff.Cond.(*ssa.BinOp)
-				okCond := ok && (cb.Op == token.GTR && cb.X == walk && isConst(cb.Y, 0) || cb.Op == token.NEQ && cb.X == walk && isConst(cb.Y, 0) || cb.Op == token.LSS && cb.Y == walk && isConst(cb.X, 0))
-				if !okCond || hdr.Succs[1] != r.Block() {
-					return "the walk does not run exactly until position 0 (the root) is reached"
-				}
-				continue
+			return "the result at " + p.InstrPos(lf.r) + " is not height - level"
+		}
+		*nLevelRet++
+		if walk != nil && start == nil {
+			// shape B: the result after the loop  for i > 0  ends, levels counted from 0
+			if lvlInit != 0 {
+				return "the walk to the root counts levels from " + itoa(int(lvlInit)) + ", not 0"
 			}
-			if start == nil || count == nil {
-				return "neither the level scan (start, count) nor the walk to the root (i = (i-1)/bf) is recognised"
-			}
-			if lvlInit != 1 || lvl.Block() != start.Block() || count.Block() != start.Block() {
-				return "the level scan's loop variables are not (start, count, lvl) := (1, bf, 1) of one loop"
-			}
-			isStart := func(v ssa.Value) bool { return v == start }
-			isEnd := func(v ssa.Value) bool {
-				b, ok := v.(*ssa.BinOp)
-				return ok && b.Op == token.ADD && (b.X == start && b.Y == count || b.X == count && b.Y == start)
-			}
-			lo, hi := false, false
-			for _, cd := range condsAt(r.Block()) {
-				if less(cd, isStart, isPos, false) {
-					lo = true
-				}
-				if less(cd, isPos, isEnd, true) {
-					hi = true
-				}
-			}
-			if !lo || !hi {
-				return "height - lvl is returned at " + p.InstrPos(r) + " without start <= pos && pos < start+count for that level"
-			}
-			// loop bound lvl < height
-			hdr := start.Block()
+			hdr := walk.Block()
 			iff, ok := hdr.Instrs[len(hdr.Instrs)-1].(*ssa.If)
-			if !ok {
-				return "the level scan's loop header is not recognised"
+			if !ok || lvl.Block() != hdr {
+				return "the walk's loop header is not recognised"
 			}
 			cb, ok := iff.Cond.(*ssa.BinOp)
-			if !ok || !(cb.Op == token.LSS && isLvl(cb.X) && isHeight(cb.Y) || cb.Op == token.GTR && isLvl(cb.Y) && isHeight(cb.X)) {
-				return "the level scan does not cover exactly the levels 1 .. height-1"
+			okCond := ok && (cb.Op == token.GTR && cb.X == walk && isConst(cb.Y, 0) || cb.Op == token.NEQ && cb.X == walk && isConst(cb.Y, 0) || cb.Op == token.LSS && cb.Y == walk && isConst(cb.X, 0))
+			if !okCond || hdr.Succs[1] != lf.b {
+				return "the walk does not run exactly until position 0 (the root) is reached"
+			}
+			continue
+		}
+		if start == nil || count == nil {
+			return "neither the level scan (start, count) nor the walk to the root (i = (i-1)/bf) is recognised"
+		}
+		if lvlInit != 1 || lvl.Block() != start.Block() || count.Block() != start.Block() {
+			return "the level scan's loop variables are not (start, count, lvl) := (1, bf, 1) of one loop"
+		}
+		isEnd := func(v ssa.Value) bool {
+			b, ok := v.(*ssa.BinOp)
+			return ok && b.Op == token.ADD && (b.X == start && b.Y == count || b.X == count && b.Y == start)
+		}
+		var lo, hi ssa.Value
+		for _, cd := range condsAt(lf.b) {
+			strict, x, y, ok := rel(cd)
+			if !ok {
+				continue
+			}
+			if !strict && x == start && isPos(y) {
+				lo = y
+			}
+			if strict && isEnd(y) && isPos(x) {
+				hi = x
 			}
 		}
-		if nLevelRet == 0 {
-			return "no result of the form height - level"
+		if lo == nil || hi == nil || lo != hi {
+			return "height - lvl is returned at " + p.InstrPos(lf.r) + " without start <= pos && pos < start+count for that level"
 		}
-		return ""
-	}()
-	c.Check(reason == "", "C17.8", "heightOf: a replica's height is the tree height minus its level in the positional layout", p.FuncPos(fn),
-		"level ranges (start, count) := (1, bf) -> (start+count, count*bf), result height-lvl under start <= pos < start+count (or the walk i -> (i-1)/bf to the root): the ranges that Parent/ChildrenOf induce",
-		"heightOf is not the level scan nor the walk to the root over the layout of Parent/ChildrenOf: "+reason+" (a replica's height disagrees with its parent's height minus one)")
+		hdr := start.Block()
+		iff, ok := hdr.Instrs[len(hdr.Instrs)-1].(*ssa.If)
+		if !ok {
+			return "the level scan's loop header is not recognised"
+		}
+		cb, ok := iff.Cond.(*ssa.BinOp)
+		if !ok || !(cb.Op == token.LSS && cb.X == lvl && isHeight(cb.Y) || cb.Op == token.GTR && cb.Y == lvl && isHeight(cb.X)) {
+			return "the level scan does not cover exactly the levels 1 .. height-1"
+		}
+	}
+	return ""
 }
